@@ -326,8 +326,18 @@ def _aff_str(terms):
     return " + ".join(_term(c, v) for c, v in terms)
 
 
-def gen_affine_einsum(rng, neg_p=0.15, two_d_p=0.25, extra_p=0.25, same_p=0.1, sum_p=0.1):
+def gen_affine_einsum(rng, neg_p=0.15, two_d_p=0.25, extra_p=0.25, same_p=0.1, sum_p=0.1, single_p=0.1):
     """O[q] = I[a*q + b*s] * F[s] and 2-D variants; returns dict with access coefficients."""
+    if rng.random() < single_p:
+        # a single-variable (strided / renamed) access: O[q] = I[a*q] (* G[q]); the loop may be written over Q or over W
+        a = rng.choice([1, 2, 2, 3])
+        decl = {"I": ["W"], "O": ["Q"]}
+        expr = "O[q] = I[%s]" % _aff_str([(a, "q")])
+        if rng.random() < 0.5:
+            decl = {"I": ["W"], "G": ["Q"], "O": ["Q"]}
+            expr += " * G[q]"
+        return {"decl": decl, "expr": expr, "out": "O", "ranks": ["Q"], "acc": {"W": [(a, "q")]}, "a": a, "b": 0,
+                "shape": {"terms": 1, "take": 0, "scalar": 0, "rank0": 0}}
     a = rng.choice([1, 1, 1, 2, 2, 3, 4])
     b = rng.choice([1, 1, 1, 2, 2, 3, 4])
     if rng.random() < neg_p:
@@ -409,8 +419,8 @@ def affine_mapping(rng, es, part_p=0.5, derive_s_p=0.33):
     nq = len(qlv) if rng.random() < 0.6 else rng.randint(0, len(qlv))
     for i, (ql, wl) in enumerate(zip(qlv, wlv)):
         loop.append(ql if i < nq else wl)
-    others = ["S"]
-    if rng.random() < derive_s_p:
+    others = ["S"] if "S" in es["ranks"] else []
+    if others and rng.random() < derive_s_p:
         # iterate both the output's and the input's innermost level and derive S from them (q = (w - b*s)/a solved for s)
         inner = loop[-1]
         others = [wlv[-1] if inner == qlv[-1] else qlv[-1]]
@@ -635,3 +645,21 @@ def flatten_only_mapping(rng, es):
         rng.shuffle(loop)
     m["loop-order"] = {out: loop}
     return m
+
+
+def gen_affine_pair(rng):
+    """Two Einsums of ONE specification that read the same input through DIFFERENT affine expressions over the same index
+    variables (two strides / dilations of one input), each with its own loop order."""
+    def coeffs():
+        return rng.choice([1, 1, 2, 3]), rng.choice([1, 1, 2])
+    (a1, b1), (a2, b2) = coeffs(), coeffs()
+    if (a1, b1) == (a2, b2):
+        a2 = a1 + 1
+    decl = {"I": ["W"], "F": ["S"], "G": ["S"], "A": ["Q"], "B": ["Q"]}
+    exprs = ["A[q] = I[%s] * F[s]" % _aff_str([(a1, "q"), (b1, "s")]), "B[q] = I[%s] * G[s]" % _aff_str([(a2, "q"), (b2, "s")])]
+    m = {"rank-order": {}, "loop-order": {}}
+    for out in ("A", "B"):
+        if rng.random() < 0.85:
+            m["loop-order"][out] = rng.choice([["Q", "S"], ["S", "Q"], ["W", "S"], ["S", "W"], ["W", "Q"], ["Q", "W"]])
+    acc = {"W": [(max(a1, a2), "q"), (max(b1, b2), "s")]}
+    return {"decl": decl, "exprs": exprs, "mapping": m, "ranks": ["Q", "S"], "acc": acc, "coeffs": [(a1, b1), (a2, b2)]}
